@@ -513,6 +513,11 @@ class Parser:
                     "end of script reached while %s expected"
                     % "|".join(self.__expected)
                 )
+            if self.__curcommand is not None:
+                raise ParseError(
+                    "end of script reached while the %s command is not finished"
+                    % self.__curcommand.name
+                )
 
         except (ParseError, CommandError, UnicodeDecodeError) as e:
             if isinstance(e, UnicodeDecodeError):
